@@ -230,13 +230,14 @@ def jobs(tier: str, seed: int) -> list[dict]:
     out.append(dict(name='checkdown/n2/hilo/2boards/T', fn='h_muck',
                     params=dict(n=2, depth=0, hilo=True, boards=2, levels=2, lo_levels=1, deck=deck),
                     budget_s=B, must_cover=mc))
-    for code, n, script, stacks in (('NT', 3, 'ccc', (50, 50, 50)), ('NT', 3, 'Rcc', (50, 30, 9)), ('FO8', 3, 'ccc', (50, 50, 50)),
+    for code, n, script, stacks in (('NT', 3, 'ccc', (50, 50, 50)), ('NT', 3, 'Rcc', (50, 30, 9)), ('NT', 3, 'Rcc', (30, 30, 30)),
+                                   ('NT', 2, 'cccRc', (30, 30)), ('FO8', 3, 'ccc', (50, 50, 50)),
                                    ('F7S', 3, 'bcc', (50, 50, 50)), ('N2L1D', 2, 'ccds', (50, 50))):
         for dk in ('identity', 'stride7', 'reversed'):
-            out.append(dict(name=f'order/{code}/n{n}/{script}/{dk}', fn='h_order', traced=False,
+            out.append(dict(name=f'order/{code}/n{n}/{script}/s{stacks[0]}-{stacks[-1]}/{dk}', fn='h_order', traced=False,
                             params=dict(code=code, n=n, script=script, stacks=stacks, deck=dk), budget_s=B,
                             must_cover=['done']))
-        out.append(dict(name=f'order/{code}/n{n}/{script}/tournament', fn='h_order', traced=False,
+        out.append(dict(name=f'order/{code}/n{n}/{script}/s{stacks[0]}-{stacks[-1]}/tournament', fn='h_order', traced=False,
                         params=dict(code=code, n=n, script=script, stacks=stacks, mode='T'), budget_s=B,
                         must_cover=['done', 'tournament-show']))
     if tier == 'thorough':
